@@ -1051,6 +1051,13 @@ func (w *world) exec1(line string) {
 		flag.Set("test.run", run)
 		flag.Set("test.count", tok[3])
 		defer func() { flag.Set("test.run", oldRun); flag.Set("test.count", oldCount) }()
+		// -test.cpu spelled in the ways the testing package reads as ONE pass over the tests (empty list
+		// elements are skipped by its parser): the harness ran every execution once per -count
+		if f := flag.Lookup("test.cpu"); f != nil {
+			oldCPU := f.Value.String()
+			flag.Set("test.cpu", []string{"", "1,", ",1", "1,,"}[(len(run)+atoi(tok[3]))%4])
+			defer flag.Set("test.cpu", oldCPU)
+		}
 		before := w.stamp()
 		out := captureStdout(func() {
 			switch tok[1] {
